@@ -13,6 +13,7 @@ TR_VALUES = {          # abstract id -> (twp, ns, rge, ew)
     8: (101, "S", 100, "E"),   # three-digit numbers
     9: (0, "N", 5, "W"),       # township 0
     10: (12, "S", 0, "E"),     # range 0
+    11: (12, "N", 203, "W"),   # a three-digit number that does not begin with 1 (drawn by C01 only, not in TR_POOL)
 }
 TR_POOL = [1, 2, 3, 4, 6, 7, 8, 9, 10]
 NS_WORD = {"N": ["N", "North", "N."], "S": ["S", "South", "S."]}
